@@ -39,6 +39,7 @@ fn main() {
         "fuzzopen" => engines::fuzzopen::run(&args),
         "fuzz-child" => engines::fuzzopen::child(&args),
         "migrate" => engines::migrate::run(&args),
+        "san" => engines::san::run(&args),
         "scratch" => engines::scratchpad::run(&args),
         other => {
             eprintln!("unknown engine {other}");
